@@ -217,7 +217,7 @@ def execute(plan):
             stats["fault.lazy_persist"] += 1
         if n_states == 0:
             stats["probe.crash_before_first_state"] += 1
-            key("crash", kind, actor, D.in_ls > 0, "fresh")
+            key("crash", kind, actor, bool(D.fired["crash_in_ls"]), "fresh")
             continue
         rec = A.states[n_states - 1]
         k = rec["iter"]
@@ -304,7 +304,7 @@ def execute(plan):
                 if snap_diff(snapshot(pickle.loads(lazy_blob)), snapshot(pickle.loads(store.eager[-1]))):
                     add("snapshot.mutated_after_callback", {"line_step": N, "at": "interrupt time", "k": A.states[n_states - 1]["iter"]})
                     stats["fault.lazy_persist_differs"] += 1
-            key("interrupt", n_states, I.in_ls > 0)
+            key("interrupt", n_states, len(I.ls_log) % 2)
 
     shape = {"events": E, "states": len(A.states), "crash_points": len(crash_points)}
     return {"violations": viol, "stats": stats, "keys": keys, "digest": digest, "shape": shape}
